@@ -12,6 +12,13 @@ def Graph.wf (g : Graph) : Bool :=
   g.tasks.all fun t => ["submitted", "started", "succeeded", "failed", "submit-failed"].all fun m =>
     t.outputs.any (·.message == m)
 
+/-- no suicide triggers anywhere in the instance graph -/
+def Graph.noSui (g : Graph) : Bool := g.tasks.all fun t => t.insts.all fun pd => pd.2.sui.isEmpty
+
+/-- a history record of a finished instance whose outputs are complete (such an instance is never revived) -/
+def histFinal (g : Graph) (h : Hist) : Bool :=
+  h.status.isFinal && (match g.task? h.name with | some t => isComplete t h.done | none => false)
+
 /-- the nearest valid point of the task before `p` -/
 def prevInst (t : TaskDefn) (p : Int) : Option Int :=
   ((t.insts.map (·.1)).filter (· < p)).foldl (fun acc q => match acc with
